@@ -7,7 +7,7 @@ import itertools
 import gen
 import impl
 import spec
-from common import Ctx, dec, dec_key, enc, enc_entries, enc_key, same, shrink
+from common import Ctx, canon_floats, dec, dec_key, enc, enc_entries, enc_key, same, shrink
 
 ID = "C07"
 RULE = ("random operation sequences over the dict API + merge() applied in lock-step to SDict, builtin dict and the Lean "
@@ -317,8 +317,9 @@ def process(ctx: Ctx, cases: list[dict]) -> None:
         for i in range(0, len(cases), 400):
             process(ctx, cases[i:i + 400])
         return
-    reqs = [{"op": "sdops", "init": c["init"], "ops": c["ops"]} for c in cases]
-    replies = [None] * len(cases) if ctx.oracle_only else ctx.driver(reqs)
+    # float lexemes are canonicalised on the way in and out (a corpus case may carry `.9` for 0.9)
+    reqs = [canon_floats({"op": "sdops", "init": c["init"], "ops": c["ops"]}) for c in cases]
+    replies = [None] * len(cases) if ctx.oracle_only else [canon_floats(r) for r in ctx.driver(reqs)]
     for c, m in zip(cases, replies):
         obs, fails = run_impl(c)
         changed = any(o.get("dict") != c["init"]["data"] for o in obs)
